@@ -168,6 +168,12 @@ func c03(tier string) int {
 		p.divs = []int{0, 1, 3, 4, 8, 16}
 	}
 	runPlan(run, p, c03Monitor(run), unknownReqs)
+	// The same, smaller, for a witness that signs with a LEGACY key only (no
+	// timestamped cosignature: its signatures are deterministic, so one
+	// representative per state - a re-submission reproduces the stored bytes).
+	pl := searchPlan{n: 5, divs: []int{0, 3}, stores: []string{"mem", "sql"}, twoLogs: true, reps: 1, signers: [][]string{{"legacy"}},
+		alpha: wh.AlphaOpts{MaxN: 5, Forged: true, RichProof: true, Shapes: []string{"plain", "ext"}}}
+	runPlan(run, pl, c03Monitor(run), unknownReqs)
 	c03StorageFailures(run)
 	// Concurrent leg: a refused update overlapping accepted ones and readers.
 	c05Concurrent(run, "C03", tier)
@@ -230,6 +236,8 @@ func c04(tier string) int {
 	c05Concurrent(run, "C04", tier)
 	// Fault leg: the same for every accepted update under every single storage fault.
 	runFaults(run, "C04", tier, false)
+	// ... and under a fault of one of the witness's own keys.
+	c04SignerFaults(run)
 	wh.InstallLogicalClock()
 	for _, sgs := range p.signers {
 		sg, nk := strings.Join(sgs, "+"), len(sgs)-1
@@ -323,11 +331,16 @@ func c20Faults(run *ev.Run) {
 		"size-0-refresh":    {mk(0, 0), mk(0, 0)},
 	}
 	for _, store := range []string{"mem", "sql"} {
-		for name, reqs := range paths {
+	  for _, failAt := range []string{"w.Set", "WriteOps", "w.GetLatest"} {
+		for name0, reqs := range paths {
+			name := name0
+			if failAt != "w.Set" {
+				name += " fault=" + failAt
+			}
 			failing := false
 			e := wh.NewEnv(u, wh.Config{Store: store, Logs: []wh.LogCfg{la}, Wrap: func(p persistence.LogStatePersistence) persistence.LogStatePersistence {
 				return lspwrap.New(p, lspwrap.Hooks{Fault: func(op, id string) (error, bool) {
-					if failing && op == "w.Set" {
+					if failing && op == failAt {
 						return errInjected, false
 					}
 					return nil, false
@@ -349,7 +362,7 @@ func c20Faults(run *ev.Run) {
 			run.Distinct("fault|" + store + "|" + name)
 			id := la.ID()
 			if out.Err == nil {
-				ev.Internal("C20 faults: the injected Set failure did not fail the update (%s/%s)", store, name)
+				ev.Internal("C20 faults: the injected storage failure did not fail the update (%s/%s)", store, name)
 			}
 			for _, cn := range []string{"attempt", "success", "invalid", "inconsistent"} {
 				k := c20Names[cn] + "{" + id + "}"
@@ -364,6 +377,7 @@ func c20Faults(run *ev.Run) {
 				}
 			}
 		}
+	  }
 	}
 }
 
